@@ -286,6 +286,7 @@ class Result:
         self.validated = 0
         self.validation_errors = []
         self.twin = None         # None (not run) / True / False
+        self.boundary_points = 0
         self.functions = []
         self.nontrivial = 0
         self.labels = []
@@ -341,6 +342,7 @@ def _random_point(rng, hyps, symbols, positive_only=False):
 
 
 EARLY_STOP_S = 120
+BOUNDARY_TRIES = 24
 
 
 class _EnoughEvidence(Exception):
@@ -348,7 +350,7 @@ class _EnoughEvidence(Exception):
 
 
 def run_item(harness, item, *, tier="quick", max_paths=256, timeout_ms=20000, cell_limit=4096,
-             twin=False, validate=0, profile=False, seed=0, params=None, max_models=4, wall_s=None):
+             twin=False, validate=0, profile=False, seed=0, params=None, max_models=4, wall_s=None, boundary=None):
     """explore all paths of harness(env) symbolically, decide every obligation, replay sat ones"""
     res = Result(item)
     t_start = time.time()
@@ -363,6 +365,7 @@ def run_item(harness, item, *, tier="quick", max_paths=256, timeout_ms=20000, ce
     twin_cands = set()
     dup_keys = {}
     n_paths = [0]
+    first_hyps = []
 
     def one_run(twin_label=None, collect=True):
         env = Env("sym", tier=tier, seed=seed, twin_label=twin_label, params=params)
@@ -434,6 +437,8 @@ def run_item(harness, item, *, tier="quick", max_paths=256, timeout_ms=20000, ce
             res.inconclusive.append({"label": ob.label, "detail": v.detail, "cell": v.cell})
         if validate and len(val_points) < validate:
             val_points.append((out["hyps"], out["impl_terms"]))
+        if not first_hyps:
+            first_hyps.append(out["hyps"])
         n_paths[0] += 1
         if pending_replays and time.time() - t_start > EARLY_STOP_S:
             # counterexample candidates exist and the item has used its wall budget: go and replay them instead of
@@ -527,6 +532,37 @@ def run_item(harness, item, *, tier="quick", max_paths=256, timeout_ms=20000, ce
             else:
                 res.inconclusive.append({"label": pr["label"], "detail": "sat but not reproduced on the numpy backend: "
                                          + rec.get("replay_note", "") + " | " + rec["detail"], "cell": pr["cell"]})
+
+        # ---- float behaviour at case boundaries (NOT solver-decided; complements the exact-arithmetic verdicts) ----
+        # the real numpy code is run at points pinned to a case boundary (e.g. statistic = 0): a NaN / infinity where the
+        # exact value is finite is a defect of the float implementation that exact arithmetic cannot see; it is a real-code
+        # observation by construction and reported as a violation
+        for pins in (boundary or []):
+            if not first_hyps or any(n not in symbols for n in pins):
+                continue
+            extra = [symbols[n] == zexpr(SV(Fraction(v))) for n, v in pins.items()]
+            bad = None
+            for _ in range(BOUNDARY_TRIES):
+                pt = _random_point(rng, first_hyps[0] + extra, symbols, positive_only=True)
+                if pt is None:
+                    break
+                try:
+                    cenv = conc_run(harness, pt, tier=tier, seed=seed, params=params)
+                except Exception:
+                    continue
+                res.boundary_points += 1
+                for o in cenv.obligations:
+                    if o.kind == "eq" and o.value_ok is False and o.impl is not None and o.oracle is not None \
+                            and (mpmath.isnan(o.impl) or mpmath.isinf(o.impl)) and mpmath.isfinite(o.oracle):
+                        bad = (o, pt)
+                        break
+                if bad:
+                    break
+            if bad:
+                o, pt = bad
+                res.violations.append({"label": o.label, "sym_label": o.label, "key": f"{o.key}:float-boundary", "detail": f"boundary pins {pins}", "cell": None,
+                                       "reproduced": True, "model": _model_str(pt), "tries": 1,
+                                       "observed": f"impl={o.impl} oracle={o.oracle} at a point pinned to {pins} (float implementation, not solver-decided)"})
 
         # ---- encoding validation -------------------------------------------------------------------
         for hyps, impl_terms in val_points:
